@@ -361,6 +361,60 @@ def stage_shared_slots(ctx):
         ctx.col.notes.append({"shared_slot_pairs": [p[2] for p in pairs][:6]})
 
 
+def stage_transient_state(ctx):
+    """A call may change shared state and put it back before it returns (a class-level flag switched off 'for the
+    moment', a module-level mode, a 'current' record): nothing differs before and after the call, so the slot diffs of
+    `shared_slots` cannot see it, and the window is a handful of A's hundreds of preemption points. Every line of a
+    palette of calls A is executed with a comparison of all scalar module-, class- and singleton-level values of the a5
+    package against their values at the start of the call (lib/sharedstate.scan_transients); for every slot that differs
+    somewhere inside A and is back at the end, A is preempted at the events of that window (all of them, capped) by
+    each call of a palette B chosen to reach different code (cells of resolution 0, 1, 2 and deep, every public
+    function), and judged like any other schedule."""
+    from lib import sharedstate
+    from lib import refids as _refids
+    sh = ctx.shard
+    deep = _refids.enc(17, (3 + sh) % 12, sh % 5, (4 ** 16) // 3 + sh)
+    mid = _refids.enc(5, (7 + sh) % 12, (sh + 2) % 5, 100 + sh)
+    r0 = _refids.enc(0, sh % 12, 0, 0)
+    r1 = _refids.enc(1, (sh + 5) % 12, sh % 5, 0)
+    r2 = _refids.enc(2, (sh + 1) % 12, (sh + 3) % 5, sh % 4)
+    pt = ["t", -170.0 + 21.0 * sh, -80.0 + 10.0 * sh]
+    palette_a = [["cell_to_lonlat", deep], ["cell_to_boundary", mid, {"segments": 3}], ["lonlat_to_cell", pt, 9], ["cell_to_boundary", r1],
+                 ["cell_to_lonlat", r0], ["cell_to_boundary", r0], ["cell_to_parent", deep, 3], ["cell_to_children", mid, 7],
+                 ["compact", ["l"] + [int(x) for x in _refids.children(r2, 3)]], ["uncompact", ["l", r2, mid], 6], ["lonlat_to_cell", pt, 0]]
+    palette_b = [["cell_to_boundary", r0], ["cell_to_boundary", r1], ["cell_to_boundary", r2, {"segments": 2, "closed_ring": False}],
+                 ["cell_to_lonlat", r0], ["cell_to_lonlat", deep], ["lonlat_to_cell", pt, 0], ["lonlat_to_cell", pt, 12], ["cell_to_boundary", deep],
+                 ["cell_to_children", r0, 1], ["cell_to_parent", deep, 0], ["compact", ["l"] + [int(x) for x in _refids.children(r1, 2)]],
+                 ["uncompact", ["l", r1], 3]]
+    budget = 2500 if ctx.tier == "quick" else 20000
+    found = 0
+    for A in [palette_a[ctx.shard % len(palette_a)]]:
+        sched._safe(_mk(A))                                   # warm: lazily built tables must not count as transient
+        sched._safe(_mk(A))
+        trans = sharedstate.scan_transients(_mk(A))
+        ctx.col.case({"A": A, "transient_scan": True, "slots": sorted(trans)[:6]}, nontrivial=True, classes=("transient_scan",))
+        for label, ks in sorted(trans.items()):
+            found += 1
+            cap = 12 if ctx.tier == "quick" else 60
+            if len(ks) > cap:
+                step = len(ks) / cap
+                ks = [ks[int(i * step)] for i in range(cap)]
+            for B in palette_b:
+                _, a1, b1 = trial_in_process((A, B, -1, False, "serial_ab"))
+                _, a2, b2 = trial_in_process((A, B, -1, False, "serial_ba"))
+                for k in ks:
+                    if budget <= 0:
+                        break
+                    budget -= 1
+                    n, ta, (tb, where, fired) = sched.run_preempted(_mk(A), _mk(B), k, False)
+                    case = {"A": A, "B": B, "k": k, "cold": False, "opcodes": False, "sys": True, "transient_slot": label}
+                    if fired and (ta not in (a1, a2) or tb not in (b1, b2)):
+                        judge(case, ctx.col)             # re-judge from scratch: raises the Violation with full context
+                        ctx.col.count("transient_sweep_mismatch_not_reproduced")
+                    ctx.col.case(case, nontrivial=bool(fired), classes=("transient_state_sweep",))
+    ctx.col.count("transient_slots_found", found)
+
+
 def cold_probe(payload):
     """Runs in a fresh fork of the pristine zygote. payload = (A, B, mode, k)
     'profile': trace A cold, trace A again warm -> (indices of line events that only the cold run has, resA, resB after)
@@ -540,7 +594,7 @@ def stage_threads(ctx):
 
 def plan(tier):
     s = [Stage("hyp", 16, stage_hyp, cost=6), Stage("systematic", 16, stage_systematic, cost=8), Stage("shared_slots", 16, stage_shared_slots, cost=7),
-         Stage("cold_init", 16, stage_cold_init, cost=5)]
+         Stage("cold_init", 16, stage_cold_init, cost=5), Stage("transient_state", 16, stage_transient_state, cost=4)]
     if tier == "thorough":
         s.append(Stage("threads", 4, stage_threads, cost=4))
     return s
